@@ -77,4 +77,13 @@ _c('C12', 'Proved for matrices of any size: cert_sound (weak LP duality for the 
    'Coq proof of a certificate checker (LP duality) + glue validity under the library contract; per-instance certificate validation of the real Dispatcher; independent eligibility oracle',
    'scipy.optimize.linear_sum_assignment is trusted only through per-instance certificates.')
 
+_c('C13', 'Proved for any consistent link table and any search oracle returning a node path of graph edges: the assembled route is non-empty iff origin and destination differ, starts at the origin position, ends at the destination '
+          'position, is connected end-to-start, uses only table links; straight-line network: one link origin->destination; a snapped position lies on its link. The model of route assembly is tied to the source by vm_compute '
+          'correspondence on Denver and generated graphs; the five clauses are also monitored on real routes (positions at link ends and interiors, same link, reversed street).',
+   'Coq proof over a hand-written model of route assembly with networkx/cKDTree/h3 as oracles; differential correspondence; route monitors')
+_c('C14', 'Proved for graphs of any size: potentials_sound (a path whose weight equals the difference of feasible node potentials is a minimum-weight path) and admissibility + consistency of a great-circle heuristic scaled by rho under the '
+          'edge bound rho*gc(u,v) <= w(u,v) and the triangle inequality. networkx A* is an oracle: every routed pair explored is compared with an exact-rational Dijkstra, and per-source potential certificates are checked by the verified '
+          'checker inside Coq; the edge bound is re-measured on every graph loaded.',
+   'Coq proof of a shortest-path certificate checker and of heuristic admissibility; per-instance certificate validation of the real router; exact Dijkstra monitor')
+
 NOT_CLAIMED = {}
